@@ -437,7 +437,7 @@ type ordJust struct {
 }
 
 var justifiedORD = map[string]ordJust{
-	"analysis.fetchEnumsAndUnions|$*packages.Package.Imports": {
+	"analysis.fetchEnumsAndUnions|$packages.Package.Imports": {
 		why: "the walk merges, per visited package, tables whose keys are named types declared in that very package (fetchPkgEnums keeps only constants of locally declared types; fetchPkgUnions keys are the package's own type names): distinct packages write disjoint keys and a package always writes the same values, so neither the order nor the number of visits matters",
 		side: func(c *ordCtx, rs *ast.RangeStmt) (bool, string) {
 			// (1) the loop body only skips ignored packages and recurses
@@ -599,9 +599,9 @@ var justifiedORD = map[string]ordJust{
 			return true, ""
 		},
 	},
-	"analysis.(PkgSelector).findPackage|$*packages.Package.Imports": {why: "depth-first search for the package with a given import path: at most one package of the import graph has that path, so the result does not depend on the visiting order", side: searchSideUniquePkg},
-	"analysis/httpapi.selectFileByPos|$*packages.Package.Imports":   {why: "search for the file containing a position: file position ranges are disjoint, at most one file matches", side: searchSide},
-	"analysis/httpapi.selectPackage|$*packages.Package.Imports":     {why: "search for the package with a given path: unique in the import graph", side: searchSideUniquePkg},
+	"analysis.(PkgSelector).findPackage|$packages.Package.Imports": {why: "depth-first search for the package with a given import path: at most one package of the import graph has that path, so the result does not depend on the visiting order", side: searchSideUniquePkg},
+	"analysis/httpapi.selectFileByPos|$packages.Package.Imports":   {why: "search for the file containing a position: file position ranges are disjoint, at most one file matches", side: searchSide},
+	"analysis/httpapi.selectPackage|$packages.Package.Imports":     {why: "search for the package with a given path: unique in the import graph", side: searchSideUniquePkg},
 	"generator/dart.Generate|$dart.buffer.files": {
 		why: "the result is a set of output files keyed by file name; each element's content depends only on its own map entry, and both consumers write each element to its own path",
 		side: func(c *ordCtx, rs *ast.RangeStmt) (bool, string) {
@@ -751,9 +751,10 @@ func runORD1(w *World, r *Result, only func(rel string) bool) int {
 					cons := "range " + es(rs.X)
 					pos := w.Pos(rs.Pos())
 					j, ok := justifiedORD[c.fn+"|"+normLocals(c.info, rs.X)]
+
 					if !ok && enumUnionWalker(c, rs) {
 						// the import walk of the enum and union tables, wherever it lives (closure, function, method)
-						j, ok = justifiedORD["analysis.fetchEnumsAndUnions|$*packages.Package.Imports"]
+						j, ok = justifiedORD["analysis.fetchEnumsAndUnions|$packages.Package.Imports"]
 					}
 					if ok {
 						if good, why := j.side(c, rs); good {
@@ -782,7 +783,7 @@ func runORD1(w *World, r *Result, only func(rel string) bool) int {
 // enumUnionWalker: rs ranges over the Imports of a *packages.Package inside a function that merges the per-package
 // enum and union tables (it calls fetchPkgEnums and fetchPkgUnions) and calls itself on the imports.
 func enumUnionWalker(c *ordCtx, rs *ast.RangeStmt) bool {
-	if normLocals(c.info, rs.X) != "$*packages.Package.Imports" {
+	if normLocals(c.info, rs.X) != "$packages.Package.Imports" {
 		return false
 	}
 	self, _ := c.info.Defs[c.fd.Name].(*types.Func)
